@@ -130,7 +130,10 @@ end Kern
 
 `Generated.KernConsts.iteratedCollections` is re-extracted from the source on every run: the declared types of
 `groups_first` / `groups_second`, of the feature-block map (and whether its collected keys are `.sort()`ed),
-of the `Groups` / `Kerning` aliases and of `Layer.contents`. -/
+of the `Groups` / `Kerning` aliases and of `Layer.contents`, followed by every walk (`.iter()`, `.keys()`,
+`.values()`, `.into_iter()`, `.drain()`, `for .. in`, `.chain(..)`/`.zip(..)`) over an identifier declared as a
+`HashSet`/`HashMap` in the four files, labelled with its consumer (`HashMap.iter.find`, `HashSet.for`, … —
+or `Hash.sorted` / `Hash.order-insensitive` when the walk order cannot reach the result). -/
 namespace Kern
 open StrMap
 
@@ -141,10 +144,11 @@ theorem source_iteration_is_ordered :
     ∀ e ∈ Generated.KernConsts.iteratedCollections, e.2 ∈ orderedCollections := by decide
 
 /-- the table covers every order parameter of the model: the two visiting orders of `upconvertWith`, the
-    key order of `featuresTextWith`, and the maps written by `writeMap` / `writeKerning` -/
+    key order of `featuresTextWith`, and the maps written by `writeMap` / `writeKerning` (it may hold
+    more: every walk over a hashed collection the extractor finds is appended) -/
 theorem source_iteration_table_complete :
-    Generated.KernConsts.iteratedCollections.map (·.1) =
-      ["groups_first", "groups_second", "feature_blocks", "Groups", "Kerning", "Kerning.seconds", "Layer.contents"] := by
+    ∀ n ∈ ["groups_first", "groups_second", "feature_blocks", "Groups", "Kerning", "Kerning.seconds", "Layer.contents"],
+      n ∈ Generated.KernConsts.iteratedCollections.map (·.1) := by
   decide
 
 /-- **source_robofab_keys_match_model**: the lib keys the feature conversion reads are the model's, and every
